@@ -34,7 +34,7 @@ fn frag_cfg(width: u32, height: u32) -> FragmentConfig {
 }
 
 // ---- mdhd duration (u64 -> u32) ---------------------------------------------
-//@ prop=C16 tier=quick cost=30 fns="muxer::mp4::build_mdhd_box_with_timescale_and_duration" bound="all u64 media durations" unwind=4
+//@ prop=C16 tier=quick cost=12 fns="muxer::mp4::build_mdhd_box_with_timescale_and_duration" bound="all u64 media durations" unwind=4
 h!(c16_mdhd_duration, 4, {
     let d: u64 = kani::any();
     if crate::known::KF_C16_MDHD_DURATION_WRAPS {
@@ -44,7 +44,7 @@ h!(c16_mdhd_duration, 4, {
     assert!(be32(&b, 24) as u64 == d, "mdhd duration field holds the media duration");
     crate::vcover!(d > 1_000_000, "long recording");
 });
-//@ prop=C16 tier=quick cost=30 fns="muxer::mp4::build_mdhd_box_with_timescale_and_duration" bound="all u64 media durations" unwind=4 expect=fail kf=KF-C16-mdhd-duration-wraps
+//@ prop=C16 tier=quick cost=12 fns="muxer::mp4::build_mdhd_box_with_timescale_and_duration" bound="all u64 media durations" unwind=4 expect=fail kf=KF-C16-mdhd-duration-wraps
 h!(c16_w_mdhd_duration, 4, {
     let d: u64 = kani::any();
     let b = snap::<32>(&mp4h::build_mdhd_box_with_timescale_and_duration(90000, d, None));
@@ -52,7 +52,7 @@ h!(c16_w_mdhd_duration, 4, {
 });
 
 // ---- composition offset (i64 -> i32) in from_samples ---------------------------
-//@ prop=C16 tier=quick cost=60 fns="muxer::mp4::SampleTables::from_samples" bound="1 sample, all pts/dts < 2^63" unwind=4
+//@ prop=C16 tier=quick cost=7 fns="muxer::mp4::SampleTables::from_samples" bound="1 sample, all pts/dts < 2^63" unwind=4
 h!(c16_cts_offset, 4, {
     let (pts, dts): (u64, u64) = (kani::any(), kani::any());
     kani::assume(pts < (1 << 63) && dts < (1 << 63));
@@ -65,7 +65,7 @@ h!(c16_cts_offset, 4, {
     crate::vcover!(diff < 0, "negative offset");
     core::mem::forget(t);
 });
-//@ prop=C16 tier=quick cost=60 fns="muxer::mp4::SampleTables::from_samples" bound="1 sample, all pts/dts < 2^63" unwind=4 expect=fail kf=KF-C16-cts-offset-wraps
+//@ prop=C16 tier=quick cost=7 fns="muxer::mp4::SampleTables::from_samples" bound="1 sample, all pts/dts < 2^63" unwind=4 expect=fail kf=KF-C16-cts-offset-wraps
 h!(c16_w_cts_offset, 4, {
     let (pts, dts): (u64, u64) = (kani::any(), kani::any());
     kani::assume(pts < (1 << 63) && dts < (1 << 63));
@@ -90,7 +90,7 @@ h!(c16_tkhd_dims, 11, {
     crate::vcover!(w == 0xffff, "largest representable width");
     core::mem::forget(cfg);
 });
-//@ prop=C16 tier=quick cost=30 fns="muxer::mp4::build_tkhd_box_with_id" bound="all u32 widths/heights" unwind=11 expect=fail kf=KF-C16-tkhd-dims-lose-high-bits
+//@ prop=C16 tier=quick cost=19 fns="muxer::mp4::build_tkhd_box_with_id" bound="all u32 widths/heights" unwind=11 expect=fail kf=KF-C16-tkhd-dims-lose-high-bits
 h!(c16_w_tkhd_dims, 11, {
     let (w, hh): (u32, u32) = (kani::any(), kani::any());
     let b = snap::<96>(&mp4h::build_tkhd_box_with_id(1, 0, w, hh));
@@ -98,7 +98,7 @@ h!(c16_w_tkhd_dims, 11, {
 });
 
 // ---- visual sample entry u16 dims (fragmented has no guard) -------------------
-//@ prop=C16 tier=quick cost=60 fns="fragmented::build_avc1_fmp4" bound="all u32 widths/heights" unwind=40
+//@ prop=C16 tier=quick cost=14 fns="fragmented::build_avc1_fmp4" bound="all u32 widths/heights" unwind=40
 h!(c16_frag_entry_dims, 40, {
     let (w, hh): (u32, u32) = (kani::any(), kani::any());
     if crate::known::KF_C16_FRAGMENTED_ENTRY_DIMS_TRUNCATE {
@@ -110,7 +110,7 @@ h!(c16_frag_entry_dims, 40, {
     crate::vcover!(w > 4096, "large width");
     core::mem::forget(cfg);
 });
-//@ prop=C16 tier=quick cost=60 fns="fragmented::build_avc1_fmp4" bound="all u32 widths/heights" unwind=40 expect=fail kf=KF-C16-fragmented-entry-dims-truncate
+//@ prop=C16 tier=quick cost=15 fns="fragmented::build_avc1_fmp4" bound="all u32 widths/heights" unwind=40 expect=fail kf=KF-C16-fragmented-entry-dims-truncate
 h!(c16_w_frag_entry_dims, 40, {
     let (w, hh): (u32, u32) = (kani::any(), kani::any());
     let cfg = frag_cfg(w, hh);
@@ -120,7 +120,7 @@ h!(c16_w_frag_entry_dims, 40, {
 });
 
 // ---- mp4a 16.16 sample rate ----------------------------------------------------
-//@ prop=C16 tier=quick cost=60 fns="muxer::mp4::build_mp4a_box" bound="all u32 sample rates, all u16 channel counts" unwind=12
+//@ prop=C16 tier=quick cost=33 fns="muxer::mp4::build_mp4a_box" bound="all u32 sample rates, all u16 channel counts" unwind=12
 h!(c16_mp4a_rate, 12, {
     let rate: u32 = kani::any();
     if crate::known::KF_C16_MP4A_RATE_LOSES_HIGH_BITS {
@@ -132,7 +132,7 @@ h!(c16_mp4a_rate, 12, {
     assert!(be16(&b, 24) == t.channels, "channel count exact");
     crate::vcover!(rate == 48000, "48 kHz");
 });
-//@ prop=C16 tier=quick cost=60 fns="muxer::mp4::build_mp4a_box" bound="rates 88200 / 96000 / 192000" unwind=12 expect=fail kf=KF-C16-mp4a-rate-loses-high-bits
+//@ prop=C16 tier=quick cost=30 fns="muxer::mp4::build_mp4a_box" bound="rates 88200 / 96000 / 192000" unwind=12 expect=fail kf=KF-C16-mp4a-rate-loses-high-bits
 h!(c16_w_mp4a_rate, 12, {
     let rate: u32 = kani::any();
     kani::assume(rate == 88200 || rate == 96000 || rate == 192000);
@@ -151,7 +151,7 @@ impl std::io::Write for NullSink {
         Ok(())
     }
 }
-//@ prop=C16 tier=quick cost=40 fns="muxer::mp4::Mp4Writer::write_video_sample_with_dts" bound="one queued sample, second sample any u64 dts" unwind=6
+//@ prop=C16 tier=quick cost=9 fns="muxer::mp4::Mp4Writer::write_video_sample_with_dts" bound="one queued sample, second sample any u64 dts" unwind=6
 h!(c16_writer_delta_guard, 6, {
     let dts0: u64 = kani::any();
     let mut w = mp4h::writer_with_state::<NullSink, 1, 0>(
@@ -169,7 +169,7 @@ h!(c16_writer_delta_guard, 6, {
     core::mem::forget((w, r));
 });
 
-//@ prop=C16 tier=quick cost=40 fns="muxer::mp4::Mp4Writer::write_audio_sample" bound="one queued Opus sample, second valid packet at any u64 pts" unwind=6
+//@ prop=C16 tier=quick cost=13 fns="muxer::mp4::Mp4Writer::write_audio_sample" bound="one queued Opus sample, second valid packet at any u64 pts" unwind=6
 h!(c16_writer_audio_delta_guard, 6, {
     let p0: u64 = kani::any();
     let mut w = mp4h::writer_with_state::<NullSink, 0, 1>(
@@ -189,7 +189,7 @@ h!(c16_writer_audio_delta_guard, 6, {
 });
 
 // ---- fragmented trun: duration (u64 -> u32) and composition offset (i64 -> i32) --
-//@ prop=C16 tier=quick cost=200 fns="fragmented::build_trun" bound="2 samples (1 byte each), all u64 dts with dts0<=dts1 < 2^63, pts < 2^63" unwind=6 timeout=900
+//@ prop=C16 tier=quick cost=26 fns="fragmented::build_trun" bound="2 samples (1 byte each), all u64 dts with dts0<=dts1 < 2^63, pts < 2^63" unwind=6 timeout=900
 h!(c16_trun_fields, 6, {
     let (p0, d0, p1, d1): (u64, u64, u64, u64) = (kani::any(), kani::any(), kani::any(), kani::any());
     kani::assume(d0 <= d1 && d1 < (1 << 63) && p0 < (1 << 63) && p1 < (1 << 63));
@@ -208,7 +208,7 @@ h!(c16_trun_fields, 6, {
     assert!(be32(&v, 48) as i32 as i128 == p1 as i128 - d1 as i128, "second composition offset = pts - dts");
     crate::vcover!(p1 < d1, "negative offset");
 });
-//@ prop=C16 tier=quick cost=200 fns="fragmented::build_trun" bound="2 samples, all dts gaps" unwind=6 timeout=900 expect=fail kf=KF-C16-trun-duration-wraps
+//@ prop=C16 tier=quick cost=21 fns="fragmented::build_trun" bound="2 samples, all dts gaps" unwind=6 timeout=900 expect=fail kf=KF-C16-trun-duration-wraps
 h!(c16_w_trun_duration, 6, {
     let (d0, d1): (u64, u64) = (kani::any(), kani::any());
     kani::assume(d0 <= d1 && d1 < (1 << 63));
@@ -216,7 +216,7 @@ h!(c16_w_trun_duration, 6, {
     let v = snap::<52>(&out);
     assert!(be32(&v, 20) as u64 == d1 - d0, "first sample duration = DTS gap");
 });
-//@ prop=C16 tier=quick cost=200 fns="fragmented::build_trun" bound="1 sample, all pts/dts < 2^63" unwind=6 timeout=900 expect=fail kf=KF-C16-trun-cts-wraps
+//@ prop=C16 tier=quick cost=13 fns="fragmented::build_trun" bound="1 sample, all pts/dts < 2^63" unwind=6 timeout=900 expect=fail kf=KF-C16-trun-cts-wraps
 h!(c16_w_trun_cts, 6, {
     let (p0, d0): (u64, u64) = (kani::any(), kani::any());
     kani::assume(d0 < (1 << 63) && p0 < (1 << 63));
@@ -226,7 +226,7 @@ h!(c16_w_trun_cts, 6, {
 });
 
 // ---- API: f64 seconds -> u64 ticks ----------------------------------------------
-//@ prop=C16 tier=quick cost=150 fns="api::Muxer::write_video" bound="first frame, any f64 pts; accepted => tick is the mathematical rounding, never a saturated value" unwind=12 timeout=900
+//@ prop=C16 tier=quick cost=16 fns="api::Muxer::write_video" bound="first frame, any f64 pts; accepted => tick is the mathematical rounding, never a saturated value" unwind=12 timeout=900
 h!(c16_api_tick_saturation, 12, {
     let mut m = MuxerBuilder::new(NullSink).video(VideoCodec::Vp9, 64, 64, 30.0).build().unwrap();
     let t: f64 = kani::any();
@@ -244,7 +244,7 @@ h!(c16_api_tick_saturation, 12, {
     crate::vcover!(r.is_ok() && t > 1.0e9, "accepted huge timestamp");
     core::mem::forget((m, r));
 });
-//@ prop=C16 tier=quick cost=150 fns="api::Muxer::write_video" bound="first frame, pts >= 2e14 s" unwind=12 timeout=900 expect=fail kf=KF-C16-api-tick-saturates
+//@ prop=C16 tier=quick cost=16 fns="api::Muxer::write_video" bound="first frame, pts >= 2e14 s" unwind=12 timeout=900 expect=fail kf=KF-C16-api-tick-saturates
 h!(c16_w_api_tick_saturation, 12, {
     let mut m = MuxerBuilder::new(NullSink).video(VideoCodec::Vp9, 64, 64, 30.0).build().unwrap();
     let t: f64 = kani::any();
